@@ -90,6 +90,16 @@ def alias_map(crate, cur_fns, cur_adts, cur_consts=None):
         if len(c) == 1:
             out[p] = c[0]
             used.add(c[0])
+    # a free function made an associated function of a type (or the reverse): same name, same signature (so no receiver was
+    # added), exactly one candidate on either side
+    for p, s in sorted(new.items()):
+        if p in out:
+            continue
+        c = [q for q, f in missing.items() if q not in used and _tail(q, 1) == _tail(p, 1) and sig_ref(f) == sig_cur(s) and owner(q)[:1].islower() != owner(p)[:1].islower()]
+        back = [r for r, s2 in new.items() if r not in out and _tail(r, 1) == _tail(p, 1) and sig_cur(s2) == sig_cur(s)]
+        if len(c) == 1 and len(back) == 1:
+            out[p] = c[0]
+            used.add(c[0])
     # renamed in place: same parent path, same signature, exactly one candidate on either side
     for p, s in sorted(new.items()):
         if p in out:
@@ -736,6 +746,52 @@ def inline_new_functions(facts, crate):
 _CONVERSION = re.compile(r"^<.+ as (?:std|core)::convert::From<.+>>::from$")
 
 
+def _plain_setters(facts):
+    """Paths of `&mut self` methods that only store (values computed without branches from) their parameters into fields of
+    self, directly or through another such method: `fn update_rewards_and_liquidity(&mut self, infos, liquidity, ts)
+    { self.update_rewards(infos, ts); self.liquidity = liquidity; }`."""
+    cands = {}
+    for f in facts.fn_list:
+        rec = f.rec
+        if f.kind != "fn" or rec.get("argc", 0) < 2 or not rec["locals"][1]["t"].startswith("&mut ") or rec["locals"][0]["t"] != "()" or f.expn:
+            continue
+        stores, callees, ok = 0, set(), True
+        for bb in rec["blocks"]:
+            if bb.get("c"):
+                continue
+            k = bb["t"]["k"]
+            if k == "call":
+                p_ = bb["t"]["f"].get("p")
+                if not p_ or not bb["t"]["f"].get("loc") or bb["t"]["t"] is None:
+                    ok = False
+                    break
+                callees.add(p_)
+            elif k not in ("ret", "goto"):
+                ok = False
+                break
+            for st in bb["s"]:
+                if st.get("k") != "=":
+                    continue
+                pl = st["p"]
+                if pl.get("p"):
+                    if pl["l"] != 1 or pl["p"][:1] != ["*"] or not any(isinstance(e, dict) and "f" in e for e in pl["p"]):
+                        ok = False
+                        break
+                    stores += 1
+            if not ok:
+                break
+        if ok and (stores or callees):
+            cands[f.path] = (stores, callees)
+    changed = True
+    while changed:
+        changed = False
+        for p_, (stores, callees) in list(cands.items()):
+            if any(c not in cands for c in callees):
+                del cands[p_]
+                changed = True
+    return {p_ for p_, (stores, callees) in cands.items() if stores or callees}
+
+
 def inline_conversions(facts, crate):
     """`*self = Tick::from(update)` in place of six field assignments: a crate-local `From` impl called from a function that
     did not call it in the reference tree is spliced in at that site (the impl itself stays and keeps being checked)."""
@@ -743,7 +799,8 @@ def inline_conversions(facts, crate):
     if not ref:
         return []
     log = []
-    local = {f.path: f for f in facts.fn_list if f.kind == "fn" and _CONVERSION.match(f.path)}
+    setters = _plain_setters(facts)
+    local = {f.path: f for f in facts.fn_list if f.kind == "fn" and (_CONVERSION.match(f.path) or f.path in setters)}
     if not local:
         return []
     for f in list(facts.fn_list):
@@ -773,7 +830,7 @@ def inline_conversions(facts, crate):
             _neutralise(f.rec, before)
             f.refresh()
             done = True
-            log.append("conversion %s read in place in %s" % (hit[1].path, f.path))
+            log.append("%s %s read in place in %s" % ("conversion" if _CONVERSION.match(hit[1].path) else "setter", hit[1].path, f.path))
         if done:
             f.refresh()
     return log
